@@ -122,7 +122,14 @@ def one_case(sess, r, rng, ci, canon, spelled, uri, transport, repl, host, port,
     nhttp, ntcp, nfo, nres, nasync = len(sess.http), len(sess.tcp_order), len(sess.fopens), len(sess.resolved), len(sess.http_async)
     replay = 'api=%s uri=%s explicit=%s' % (api, uri, explicit)
     is_async = api.startswith('async')
+    prior = None
+    if ci % 3 == 1 and not api.startswith('async'):      # (an asynchronous service accepts one endpoint setting only)
+        # the service pointed somewhere else first (another transport): only the LAST setting may decide where the request goes
+        prior = rng.choice(['ksi+tcp://earlier.example:4444', 'file:///tmp/earlier-endpoint.tlv', 'ksi+http://earlier.example:81/old', 'http://earlier.example/older'])
+        replay = 'earlier-endpoint=%s ' % prior + replay
     if not is_async:
+        if prior and not prior.startswith('file') or (prior and transport != 'file'):
+            c('set_%s 0 %s earlier-user earlier-key' % ('aggr' if api == 'aggr' else 'ext', prior))
         q = c('set_%s 0 %s %s %s' % ('aggr' if api == 'aggr' else 'ext', uri, user, key))
         setrc = q.rc
         if setrc == 0:
